@@ -138,6 +138,9 @@ func runSeeds(tier string, seed int64) {
 	var ms, ps []string
 	// mnemonic classes: empty, garbage, valid sentences in several forms, wrong checksum, wrong count
 	ms = append(ms, "", "x", "not a mnemonic at all", "abandon abandon")
+	// U+0000 is valid UTF-8 and MnemonicToSeed never validates its input
+	ms = append(ms, "\x00", "a\x00b", "\x00abandon", "abandon ability\x00", "abandon\x00\x00ability able", "\x00\x00")
+	ps = append(ps, "\x00", "pass\x00word", "\x00TREZOR", "TREZOR\x00", "\x01\x02\x7f")
 	for _, lang := range []int{2, 5, 6, 3, 7} {
 		idx := indicesOf(r.bytes(sizes[r.intn(5)]))
 		s := sentence(idx, lang, " ")
